@@ -94,7 +94,8 @@ def gridworld_cases(draw, tier="quick"):
                                                                          "s": st.sampled_from([1, -2]), "#": st.just(7)})))
     return {"rows": rows, "as_string": draw(st.booleans()), "success_prob": draw(st.sampled_from([0, 0.3, 0.8, 1, 1.0, 0.0])),
             "step_cost": draw(st.sampled_from([-1, 0, -0.5])), "feature_rewards": fr,
-            "absorbing": draw(st.sampled_from([["g"], ["g", "x"]])), "gamma": draw(st.sampled_from([1.0, 0.95, 0.5]))}
+            "absorbing": draw(st.sampled_from([["g"], ["g", "x"]])), "gamma": draw(st.sampled_from([1.0, 0.95, 0.5])),
+            "role_rep": draw(st.sampled_from(["tuple", "tuple", "list", "set", "frozenset", "str", "str"]))}
 
 
 def prop_gridworld(case, ctx):
@@ -106,7 +107,13 @@ def prop_gridworld(case, ctx):
     kw = {}
     if case["feature_rewards"] is not None:
         kw["feature_rewards"] = case["feature_rewards"]
-    gw = ctx.call("C20.gridworld.construct_raises", GridWorld, tile, absorbing_features=tuple(case["absorbing"]),
+    # the role arguments are collections of one-character features: a tuple, a list, a set or simply a string of them
+    rr = case.get("role_rep", "tuple")
+    rep = {"tuple": tuple, "list": list, "set": set, "frozenset": frozenset, "str": lambda xs: "".join(xs)}[rr]
+    if rr != "tuple":
+        kw.update(wall_features=rep(["#"]), initial_features=rep(["s"]))
+        ctx.event("role_rep=" + rr)
+    gw = ctx.call("C20.gridworld.construct_raises", GridWorld, tile, absorbing_features=rep(list(case["absorbing"])),
                   success_prob=case["success_prob"], step_cost=case["step_cost"], discount_rate=case["gamma"], **kw)
     sl = check_model(ctx, "gridworld", gw)
     FR = case["feature_rewards"] if case["feature_rewards"] is not None else {"g": 0}
